@@ -192,10 +192,10 @@ def evaluate(case):
         Ye = list(g) if Y is None else Y
         P = Pabs = tolfac = None
         if Y is not None:
+            cnd = G.MonomialCond(g, is_log, d)
+            tolfac = np.array([2e-13 + 64.0 * EPS * cnd(y) for y in Ye])  # rounding of one basis-function value (C34)
             if opkind == "poly":
                 QY = ref.monomials(Ye, d)
-                cnd = G.MonomialCond(g, is_log, d)
-                tolfac = np.array([2e-13 + 64.0 * EPS * cnd(y) for y in Ye])
             else:
                 disp = interpolation.InterpolatorDispatcher(interpolation.XGrid(list(g), log=is_log), d, mode_N=False)
                 P = np.array([[disp[j].evaluate_x(y) for j in range(n)] for y in Ye])
@@ -230,7 +230,10 @@ def evaluate(case):
                         elif opkind == "poly":
                             continue  # the error tensor of a polynomial operator is dense: judged in the dense cases
                         else:
-                            want, tol = out @ P.T, 1e-12 * (outabs @ Pabs.T)
+                            # apply may take the identity shortcut for target = nodes while P carries the
+                            # rounding of the basis evaluation: allow that rounding on every basis-function value
+                            want = out @ P.T
+                            tol = 1e-12 * (outabs @ Pabs.T) + outabs.sum(axis=1)[:, None] * tolfac[None, :]
                     else:
                         want, tol = out, 1e-12 * outabs
                     arr = np.array([np.asarray(dct[ep][lab]) for lab in labels], dtype=float)
